@@ -532,8 +532,86 @@ fn val_oracle(c: &ValCase, rec: &Rec) -> R {
     Ok(())
 }
 
+// ------------------------------------------------------------------------------------------------
+// (e) jointly crafted digit proofs whose pairing errors cancel
+// ------------------------------------------------------------------------------------------------
+
+#[derive(Clone, Debug, Serialize, Deserialize)]
+pub struct CancelCase {
+    target: LinkTarget,
+    in_range_target: Option<u64>,
+    seed: u64,
+}
+
+fn cancel_strategy(_t: Tier) -> impl Strategy<Value = CancelCase> {
+    let lt = prop_oneof![Just(LinkTarget::TwoPow63), (1u16..).prop_map(LinkTarget::TwoPow63Plus), Just(LinkTarget::MinusOne)];
+    (lt, proptest::option::of(any::<u64>()), any::<u64>()).prop_map(|(target, in_range_target, seed)| CancelCase { target, in_range_target, seed })
+}
+
+fn cancel_oracle(c: &CancelCase, rec: &Rec) -> R {
+    use crate::model::forger::{cancelling_pair, digit_subs, write_sub};
+    let m = crate::model::proto::merchant(0);
+    let params = m.cfg.range_constraint_parameters();
+    let (l, u) = observed_l_u(params);
+    // template: layout of an honest constraint
+    let rb = RangeConstraintBuilder::generate_constraint_commitments(1, params, &mut rng(1)).expect("in range");
+    let template = Image::must(&rb.generate_constraint_response(challenge_from_seed(1)));
+    let to_scalar = |x: u128| -> Scalar {
+        let mut b = [0u8; 32];
+        b[..16].copy_from_slice(&x.to_le_bytes());
+        Scalar::from_bytes(&b).unwrap()
+    };
+    let (target, label) = match (&c.in_range_target, &c.target) {
+        (Some(v), _) => (to_scalar((*v >> 1) as u128), "in-range-target"),
+        (None, LinkTarget::TwoPow63) => (to_scalar(1u128 << 63), "2^63"),
+        (None, LinkTarget::TwoPow63Plus(k)) => (to_scalar((1u128 << 63) + *k as u128), "2^63+k"),
+        (None, _) => (-Scalar::one(), "-1"),
+    };
+    // digits all 0 with honest blinded signatures, then digits 0 and 1 replaced by the cancelling pair
+    let (mut subs, cs) = digit_subs(&m, &vec![0u64; l], &Scalar::zero(), c.seed, 7);
+    cancelling_pair(&m.range_img, &mut subs, &target, u as u64, c.seed);
+    let ped = PedersenParameters::<G1Projective, 1>::new(&mut rng(0x5000));
+    let main = CommitmentProofBuilder::generate_proof_commitments(&mut rng(c.seed), Message::<1>::from(target), &[Some(cs)], &ped);
+    let ch = ChallengeBuilder::new().with(&main).with(params).with_bytes(c.seed.to_le_bytes()).finish();
+    let main_proof = main.generate_proof_response(ch);
+    let mut img = template.clone();
+    for (j, (b1, b2, sub)) in subs.iter_mut().enumerate() {
+        sub.respond(&ch.to_scalar());
+        let p = format!("digit_proofs.{}.", j);
+        img.set(&format!("{}blinded_signature.sigma1", p), &b1.to_affine().to_compressed());
+        img.set(&format!("{}blinded_signature.sigma2", p), &b2.to_affine().to_compressed());
+        write_sub(&mut img, &format!("{}commitment_proof.", p), sub);
+    }
+    let rc: RangeConstraint = wire::dec(&img.bytes).map_err(|e| Fail::new("harness/assembled-constraint-undecodable", e))?;
+    let expected = main_proof.conjunction_response_scalars()[0];
+    let lib = rc.verify_range_constraint(params, ch, expected);
+    let reference = range_ref(&m.range_pk, u, &img, &ch.to_scalar(), &expected);
+    rec.eval(1);
+    ensure!(!reference, "harness/reference-disagrees-with-construction", "cancelling pair satisfies the per-digit relations");
+    // sanity of the construction: the response scalars do sum to the linked response
+    if lib {
+        return Err(Fail::new(
+            if c.in_range_target.is_some() { "C13/invalid-assembled-constraint-accepted" } else { "C13/accepted-for-value-outside-range" },
+            format!("a constraint with two jointly crafted digit proofs (individually false pairing equations whose errors cancel) verifies for the linked value {}", label),
+        )
+        .obs("accepted", "rejected"));
+    }
+    rec.class(&format!("cancelling-pair/{}/reject", label));
+    rec.nontrivial((label, c.seed));
+    rec.sample(&format!("cancelling-pair/{}", label), || json!({"target": label, "L": l, "u": u}));
+    Ok(())
+}
+
 pub fn checks() -> Vec<CheckDef> {
     vec![
+        prop_check(
+            "cancelling-digit-pairs",
+            "attacker-assembled constraints in which digit proofs 0 and 1 are crafted jointly (sigma1_j = h^{a_j}, sigma2_0 + sigma2_1 = S^{a0+a1} h^{a0 r0 + a1 r1} with a0 M0 + a1 M1 = 0, commitments to arbitrary field elements M0 + u M1 = target): every single pairing equation is false, their unweighted product is the identity; targets 2^63, 2^63+k, -1 and random in-range values; oracle: verdict == per-digit reference (false), no acceptance for an out-of-range linked value; distinct by (target, seed)",
+            &["cancelling-pair/-1/reject", "cancelling-pair/2^63/reject"],
+            (48, 2000),
+            cancel_strategy,
+            cancel_oracle,
+        ),
         enum_check(
             "prover-sign-test",
             "enumerated i64 boundary set {i64::MIN, -2^62, -129..-1, 0, 1, 127, 128, 128^k-1, 128^k, 128^k+1, -(128^k), 2^62, 2^63-1} plus xorshift-random i64; oracle: Err(ValueOutsideRange(v)) <=> v < 0 (no panic), accepted values give a constraint verifying against c*v+s; distinct by value",
